@@ -540,6 +540,12 @@ def run(case):
             cube = NDCube(np.zeros(shape), wcs=W.make_probe(random.Random(1), shape))
             for k, m in enumerate(one_d):
                 cube.extra_coords.add(build_member(m, k).names, k, build_member(m, k))
+            # (a WCS set by hand on table-built extra coords is refused, and leaves them as they were)
+            try:
+                cube.extra_coords.wcs = cube.wcs
+                fails.append("extra_coords.wcs set by hand on table-built extra coords was accepted")
+            except AttributeError:
+                pass
             factor = [rng.choice([1, 2, 0.5, 1.5]) for _ in shape]
             offset = [rng.choice([0, 0.5, 1]) for _ in shape]
             # the scalar spellings: one number standing for every axis (factor, offset, or both)
